@@ -152,3 +152,30 @@ def _positive_by_construction(f, use, e):
     # early return under E <= 0 :  literal (0 < E) true on every path
     ok, cut = cfg.all_paths_cut(ub, lambda lit, b, i: lit is not None and lit.kind == "lt" and lit.pol and lit.lhs.const_value() == 0 and render(lit.rhs) == et)
     return ok and bool(cut)
+
+
+_STATIC_ANCHORS = None
+
+
+def static_anchors():
+    """anchors with internal linkage (rules/tables/anchors.json): if one vanishes, its code is analysed inside its callers"""
+    global _STATIC_ANCHORS
+    if _STATIC_ANCHORS is None:
+        import json
+        import os
+        from sa.facts import VERIF
+        try:
+            with open(os.path.join(VERIF, "rules", "tables", "anchors.json")) as f:
+                _STATIC_ANCHORS = set(json.load(f).get("static", []))
+        except OSError:
+            _STATIC_ANCHORS = set()
+    return _STATIC_ANCHORS
+
+
+def holder_of(prog, static_name, must_call):
+    """the function that holds the code of a static anchor: the anchor itself, or - when it was folded into its caller -
+    the library function that makes all the calls in `must_call`"""
+    if prog.has_fn(static_name):
+        return prog.fn(static_name)
+    cands = [f for f in prog.lib_functions() if all(f.calls(c) for c in must_call)]
+    return cands[0] if len(cands) == 1 else None
